@@ -1,4 +1,365 @@
-import PieModel.Build.Pie
+/-
+Property C01 (write-free fragment): soundness of incremental top-down builds.
+
+"Whenever requiring a task in a session returns, the returned output equals what executing the
+same tasks from scratch against the current state of all resources would produce — whatever
+resources were changed between sessions and whatever was built before on the same `Pie`."
+
+Quantifier: every checker semantics `sem` with total resource stampers (`StampTotal`; a failing
+stamp records no dependency, finding K5), every table of write-free task programs `body` whose
+continuations respect their checkers (`Respects`: outputs depend only on what the checkers
+observe) and use one checker per dependency target per execution (`OneChecker`; finding K2), every
+fuel, every initial resource state, every finite history of top-down sessions (each requiring an
+arbitrary list of roots, possibly aborting) interleaved with arbitrary external changes.
+
+The from-scratch semantics is the big-step relation `Eval sem body fs` of
+`PieModel/Build/Sound/Defs.lean` (deterministic: `C01_eval_deterministic`), linked to the model's
+own `cleanBuild` by `C01_clean_build_eval`.  The proof is the joint induction `tdSound`
+(`PieModel/Build/Sound/*.lean`) over the five mutually recursive functions of the top-down
+context, with the store invariant `Faithful` and the session invariant `SInv`.
+-/
+import PieModel.Build.Sound.Session
+import PieModel.Build.Sound.NoWrite
+import PieModel.Build.StdSem
+import PieModel.Props.C19
+
 namespace PieModel
-theorem C01_placeholder : True := trivial
+
+variable {sem : Sem} {body : Nat → Prog}
+
+/-! ### the from-scratch semantics -/
+
+theorem C01_eval_deterministic {fs : List (Nat × Int)} {t : Nat} {v w : Int}
+    (h1 : Eval sem body fs t v) (h2 : Eval sem body fs t w) : v = w := h1.det h2
+
+/-! ### 1. the store invariant `Faithful` -/
+
+/-- The empty store is faithful. -/
+theorem C01_faithful_empty : Faithful sem body ({} : Store) := Faithful.empty
+
+/-- External changes do not touch the store (and `Faithful` does not mention the resources). -/
+theorem C01_setContent_store (p : PieSt) (r : Nat) (v : Option Int) :
+    (p.setContent r v).store = p.store := by cases v <;> rfl
+
+/-- A new session on a well-formed faithful store satisfies the session invariant. -/
+theorem C01_invariant_newSession (p : PieSt) (hw : p.store.WF) (hf : Faithful sem body p.store) :
+    SInv sem body p.fs p.newSession := SInv.newSession hw hf
+
+section
+variable (hst : StampTotal sem) (hwfb : WriteFreeBody body)
+  (hresp : ∀ t, Respects sem (body t)) (hone : ∀ t, OneChecker (body t))
+include hst hwfb hresp hone
+
+/-- Every top-down function maps a state satisfying the invariant (`SInv`: `SessWF`, `Faithful`,
+`CSound`, …; in particular every new session on a well-formed faithful store) to a state with a
+faithful store, **whatever the result** (`.ok` or `.abort`).  The side conditions of the inner
+functions are those under which they are called (proved at every call site by the induction):
+`tdMake`/`tdCheck`/`tdCheckDeps` work below the executing task (`CurReach`), `tdCheck(Deps)` on a
+task that is not yet consistent and on (a suffix of) its own dependency list, `tdRun` on a
+write-free program whose recorded dependencies match the accumulators of `OneCk`. -/
+theorem C01_faithful_preserved (fuel : Nat) (s : Sess) (h : SInv sem body s.fs s) :
+    (∀ u c, Faithful sem body (tdRequire sem body fuel s u c).1.store) ∧
+    (∀ t, CurReach s (nodeOf s t) → Faithful sem body (tdMake sem body fuel s t).1.store) ∧
+    (∀ m, m ∉ s.consistent → CurReach s m →
+      Faithful sem body (tdCheck sem body fuel s m).1.store) ∧
+    (∀ m ds, m ∉ s.consistent → CurReach s m → (∀ d ∈ ds, d ∈ s.store.depsFrom m) →
+      Faithful sem body (tdCheckDeps sem body fuel s ds).1.store) ∧
+    (∀ n p qt qr, s.cur = some n → p.WriteFree → OneCk qt qr p → RunInv sem s.fs qt qr s n →
+      Faithful sem body (tdRun sem body fuel s p).1.store) ∧
+    (∀ t, Faithful sem body (sessionRequire sem body fuel s t).1.store) ∧
+    (∀ ts, Faithful sem body (requireAll sem body fuel s ts).1.store) := by
+  have T := tdSound (fs := s.fs) hst hwfb hresp hone fuel
+  exact ⟨fun u c => (T.require s u c h).faithful, fun t hc => (T.make s t h hc).faithful,
+    fun m hm hc => (T.check s m h hm hc).faithful,
+    fun m ds hm hc hd => (T.checkDeps s m ds h hm hc hd).faithful,
+    fun n p qt qr hn hp ho hr => (T.run s n p qt qr h hn hp ho hr).faithful,
+    fun t => (sessionRequire_outcome hst hwfb hresp hone fuel s t h).faithful,
+    fun ts => (requireAll_outcome hst hwfb hresp hone fuel ts s h).faithful⟩
+
+/-- A whole session, aborted or not, on a well-formed faithful `Pie` leaves a well-formed
+faithful `Pie`. -/
+theorem C01_faithful_session (fuel : Nat) (p : PieSt) (hw : p.store.WF)
+    (hf : Faithful sem body p.store) (roots : List Nat) :
+    (requireAll sem body fuel p.newSession roots).1.toPie.store.WF ∧
+    Faithful sem body (requireAll sem body fuel p.newSession roots).1.toPie.store :=
+  ⟨(requireAll_ext sem body fuel roots (C19_newSession_wf p hw)).wf.store,
+    (requireAll_outcome hst hwfb hresp hone fuel roots _ (SInv.newSession hw hf)).faithful⟩
+
+/-! ### 2. validation and execution are sound -/
+
+/-- If `check_task` finds task node `m` consistent with output `o`, then `o` is its stored
+output and the from-scratch output of its task. -/
+theorem C01_check_sound (fuel : Nat) (s s' : Sess) (m t : Nat) (o : Int)
+    (h : SInv sem body s.fs s) (ht : s.store.taskOf m = some t) (hm : m ∉ s.consistent)
+    (hc : CurReach s m) (hr : tdCheck sem body fuel s m = (s', .ok (some o))) :
+    Eval sem body s.fs t o ∧ s'.fs = s.fs ∧ s.store.taskOutput m = some o ∧
+      s'.store.taskOutput m = some o := by
+  obtain ⟨st, hp, hq⟩ := ((tdSound (fs := s.fs) hst hwfb hresp hone fuel).check s m h hm hc).ok _ _ hr
+  obtain ⟨ho, hd⟩ := hq o rfl
+  exact ⟨replay_eval hst (hresp t) (h.faithful m t o ht ho).1 (fun d hd' => (hd d hd').1),
+    st.inv.fsEq, ho, by rw [(hp m (.inl rfl)).1.1]; exact ho⟩
+
+/-- If `make_task_consistent` returns `v` for task `t` (whether by validation or by execution),
+then `v` is the from-scratch output of `t` in the session's resource state, which is unchanged;
+the node of `t` is marked consistent and stores `v`. -/
+theorem C01_exec_sound (fuel : Nat) (s s' : Sess) (t : Nat) (v : Int)
+    (h : SInv sem body s.fs s) (hc : CurReach s (nodeOf s t))
+    (hr : tdMake sem body fuel s t = (s', .ok v)) :
+    Eval sem body s.fs t v ∧ s'.fs = s.fs ∧ SInv sem body s.fs s' ∧
+      nodeOf s t ∈ s'.consistent ∧ s'.store.taskOutput (nodeOf s t) = some v ∧
+      aget s'.store.taskNode t = some (nodeOf s t) := by
+  obtain ⟨st, h1, h2, h3, h4, _⟩ :=
+    ((tdSound (fs := s.fs) hst hwfb hresp hone fuel).make s t h hc).ok _ _ hr
+  exact ⟨h4, st.inv.fsEq, st.inv, h1, h2, (st.inv.wf.store.task_iff _ _).mpr h3⟩
+
+/-! ### 3. sessions and histories -/
+
+/-- **C01 for one `Session::require`**, from any state satisfying the invariant (in particular
+after any number of earlier `require`s in the same session). -/
+theorem C01_session_sound (fuel : Nat) (s s' : Sess) (t : Nat) (o : Int)
+    (h : SInv sem body s.fs s) (hr : sessionRequire sem body fuel s t = (s', .ok o)) :
+    Eval sem body s.fs t o ∧ s'.fs = s.fs ∧ SInv sem body s.fs s' := by
+  obtain ⟨st, h1, h2, _⟩ := (sessionRequire_outcome hst hwfb hresp hone fuel s t h).ok _ _ hr
+  exact ⟨h1, h2, st.inv⟩
+
+/-- Several roots in one session. -/
+theorem C01_requireAll_sound (fuel : Nat) (s s' : Sess) (ts : List Nat) (os : List Int)
+    (h : SInv sem body s.fs s) (hr : requireAll sem body fuel s ts = (s', .ok os)) :
+    List.Forall₂ (Eval sem body s.fs) ts os :=
+  ((requireAll_outcome hst hwfb hresp hone fuel ts s h).ok _ _ hr).2
+
+/-- **C01.** For every history of external changes and top-down sessions run from the empty
+`Pie`, every output `o` returned by a `Session::require` of `root` while the resources were `fs`
+is the from-scratch output of `root` on `fs`. -/
+theorem C01_sources (fuel : Nat) (steps : List TStep) (fs : List (Nat × Int)) (root : Nat) (o : Int)
+    (hx : (fs, root, o) ∈ (runSteps sem body fuel {} steps).2) : Eval sem body fs root o :=
+  (runSteps_sound hst hwfb hresp hone fuel steps {} Store.WF.empty Faithful.empty).2.2 _ hx
+
+/-- After every such history the store is well-formed and faithful. -/
+theorem C01_history_faithful (fuel : Nat) (steps : List TStep) :
+    (runSteps sem body fuel {} steps).1.store.WF ∧
+    Faithful sem body (runSteps sem body fuel {} steps).1.store :=
+  ⟨(runSteps_sound hst hwfb hresp hone fuel steps {} Store.WF.empty Faithful.empty).1,
+    (runSteps_sound hst hwfb hresp hone fuel steps {} Store.WF.empty Faithful.empty).2.1⟩
+
+/-! ### 4. against the model's own clean build -/
+
+/-- The model's from-scratch build computes `Eval` (the main theorem on the empty store). -/
+theorem C01_clean_build_eval (fuel : Nat) (fs : List (Nat × Int)) (roots : List Nat) (s : Sess)
+    (os : List Int) (hr : cleanBuild sem body fuel fs roots = (s, .ok os)) :
+    List.Forall₂ (Eval sem body fs) roots os :=
+  C01_requireAll_sound hst hwfb hresp hone fuel ({ fs := fs } : Sess) s roots os
+    (SInv.newSession (p := { fs := fs }) Store.WF.empty Faithful.empty) hr
+
+/-- **C01 against `cleanBuild`.** An output returned by an incremental `require` equals the
+output of a from-scratch build of the same root on the same resources (whenever the latter
+returns, for any fuel). -/
+theorem C01_equals_clean_build (fuel fuel' : Nat) (steps : List TStep) (fs : List (Nat × Int))
+    (root : Nat) (o o' : Int) (s : Sess)
+    (hx : (fs, root, o) ∈ (runSteps sem body fuel {} steps).2)
+    (hc : cleanBuild sem body fuel' fs [root] = (s, .ok [o'])) : o = o' := by
+  have h1 := C01_sources hst hwfb hresp hone fuel steps fs root o hx
+  have h2 := C01_clean_build_eval hst hwfb hresp hone fuel' fs [root] s [o'] hc
+  cases h2 with
+  | cons h2 _ => exact h1.det h2
+
+end
+
+/-! ### 5. no spurious abort kinds -/
+
+theorem Res.notHO_ne {α : Type} {r : Res α} (h : r.notHO) :
+    r ≠ .abort .hidden ∧ r ≠ .abort .overlap := by
+  constructor <;> (rintro rfl; simp [Res.notHO] at h)
+
+/-- A write-free program never aborts with a hidden dependency or an overlapping write in a
+top-down `require`, from any well-formed session state whose store contains no write dependency;
+and it creates no write dependency. -/
+theorem C01_no_spurious_abort_kinds (sem : Sem) (hwfb : WriteFreeBody body) (fuel : Nat) (s : Sess)
+    (h : SessWF s) (hn : NoWrite s.store) (t : Nat) :
+    NoWrite (sessionRequire sem body fuel s t).1.store ∧
+    (sessionRequire sem body fuel s t).2 ≠ .abort .hidden ∧
+    (sessionRequire sem body fuel s t).2 ≠ .abort .overlap :=
+  ⟨(sessionRequire_nho sem body hwfb fuel h hn t).nw,
+    Res.notHO_ne (sessionRequire_nho sem body hwfb fuel h hn t).nho⟩
+
+/-- Same for a list of roots. -/
+theorem C01_no_spurious_abort_kinds_all (sem : Sem) (hwfb : WriteFreeBody body) (fuel : Nat)
+    (ts : List Nat) : ∀ (s : Sess), SessWF s → NoWrite s.store →
+    NoWrite (requireAll sem body fuel s ts).1.store ∧
+    (requireAll sem body fuel s ts).2 ≠ .abort .hidden ∧
+    (requireAll sem body fuel s ts).2 ≠ .abort .overlap := by
+  induction ts with
+  | nil => intro s _ hn; exact ⟨hn, by simp [requireAll], by simp [requireAll]⟩
+  | cons t ts ih =>
+    intro s h hn
+    have h1 := C01_no_spurious_abort_kinds sem hwfb fuel s h hn t
+    have w1 := sessionRequire_ext sem body fuel h t
+    unfold requireAll
+    split
+    next s2 a heq =>
+      rw [heq] at h1
+      exact ⟨h1.1, fun hh => h1.2.1 (by cases hh; rfl), fun hh => h1.2.2 (by cases hh; rfl)⟩
+    next s2 o heq =>
+      rw [heq] at h1
+      have h2 := ih s2 (w1.out heq).wf h1.1
+      split
+      next s3 a heq3 =>
+        rw [heq3] at h2
+        exact ⟨h2.1, fun hh => h2.2.1 (by cases hh; rfl), fun hh => h2.2.2 (by cases hh; rfl)⟩
+      next s3 os heq3 =>
+        rw [heq3] at h2
+        exact ⟨h2.1, by simp, by simp⟩
+
+/-! ### the history type agrees with `C19`'s -/
+
+def TStep.toHStep : TStep → HStep
+  | .change r v => .change r v
+  | .session roots => .session roots
+
+/-- `runSteps` passes through the same `Pie` states as `runHistory` of C19. -/
+theorem C01_history_agrees (sem : Sem) (body : Nat → Prog) (fuel : Nat) (steps : List TStep) :
+    (runSteps sem body fuel {} steps).1 = runHistory sem body fuel (steps.map TStep.toHStep) := by
+  unfold runHistory
+  have key : ∀ (l : List TStep) (p : PieSt), (runSteps sem body fuel p l).1 =
+      (l.map TStep.toHStep).foldl (runStep sem body fuel) p := by
+    intro l
+    induction l with
+    | nil => intro p; rfl
+    | cons st l ih =>
+      intro p
+      cases st with
+      | change r v => unfold runSteps; rw [ih]; rfl
+      | session roots =>
+        unfold runSteps
+        simp only [List.map_cons, List.foldl_cons]
+        rw [ih, requireLog_fst]; rfl
+  exact key steps {}
+
+/-! ### non-vacuity
+
+Three tasks.  Task 0 reads resource 0 (exact checker) and, depending on the value, requires task 1
+(exact) and task 2 (`AlwaysConsistent`, result ignored), or task 2 (exact).  Task 1 reads
+resource 1.  All other tasks return 7. -/
+
+/-- `stdSem` with total resource stampers (checker ids ≥ 30 of `stdSem` fail on purpose). -/
+def totalSem : Sem := { stdSem with rstamp := fun c v => .ok (stdRStampCore c v) }
+
+theorem totalSem_stampTotal : StampTotal totalSem := fun _ _ => ⟨_, rfl⟩
+
+def c01Body : Nat → Prog
+  | 0 => .read 0 0 (fun x => match x with
+      | .ok (some 1) => .req 1 0 (fun o => .req 2 4 (fun _ => .ret (o + 10)))
+      | _ => .req 2 0 (fun o => .ret (o + 20)))
+  | 1 => .read 1 0 (fun x => match x with | .ok (some v) => .ret v | _ => .ret 0)
+  | _ => .ret 7
+
+theorem c01Body_writeFree : WriteFreeBody c01Body := by
+  intro t
+  match t with
+  | 0 =>
+    refine .read _ _ _ (fun x => ?_)
+    split
+    · exact .req _ _ _ (fun o => .req _ _ _ (fun _ => .ret _))
+    · exact .req _ _ _ (fun o => .ret _)
+  | 1 =>
+    refine .read _ _ _ (fun x => ?_)
+    split <;> exact .ret _
+  | _ + 2 => exact .ret _
+
+theorem totalSem_ocheck0 {o o' : Int} (h : totalSem.ocheck 0 o' (totalSem.ostamp 0 o) = true) :
+    o' = o := by
+  simpa [totalSem, stdSem, stdOCheck, stdOStamp] using h
+
+theorem totalSem_rcheck0 {v v' : Option Int} {s : Stamp} (h1 : totalSem.rstamp 0 v = .ok s)
+    (h2 : totalSem.rcheck 0 v' s = .ok true) : v' = v := by
+  simp only [totalSem, stdSem, stdRStampCore, Except.ok.injEq] at h1
+  subst h1
+  simpa [totalSem, stdSem, stdRCheck, stdRStampCore] using h2
+
+theorem c01Body_respects : ∀ t, Respects totalSem (c01Body t) := by
+  intro t
+  match t with
+  | 0 =>
+    refine ⟨fun v v' s h1 h2 => by rw [totalSem_rcheck0 h1 h2], fun x => ?_⟩
+    dsimp only
+    split
+    · exact ⟨fun o o' h => by rw [totalSem_ocheck0 h], fun o => ⟨fun _ _ _ => rfl, fun _ => trivial⟩⟩
+    · exact ⟨fun o o' h => by rw [totalSem_ocheck0 h], fun o => trivial⟩
+  | 1 =>
+    refine ⟨fun v v' s h1 h2 => by rw [totalSem_rcheck0 h1 h2], fun x => ?_⟩
+    dsimp only
+    split <;> trivial
+  | _ + 2 => trivial
+
+theorem c01Body_oneChecker : ∀ t, OneChecker (c01Body t) := by
+  intro t
+  match t with
+  | 0 =>
+    refine ⟨fun c' h => (nomatch h), fun x => ?_⟩
+    dsimp only
+    split <;> simp [OneCk]
+  | 1 =>
+    refine ⟨fun c' h => (nomatch h), fun x => ?_⟩
+    dsimp only
+    split <;> trivial
+  | _ + 2 => trivial
+
+/-- A history: two changes, a session, a change of the resource read by task 1, a session with
+two roots, a change that switches task 0 to its other branch, two more sessions. -/
+def c01History : List TStep :=
+  [.change 0 (some 1), .change 1 (some 5), .session [0], .change 1 (some 6), .session [0, 1],
+   .change 0 (some 2), .session [0], .session [0]]
+
+/-- The log of the run: every `require` returned, with these outputs. -/
+example : (runSteps totalSem c01Body 60 {} c01History).2 =
+    [([(0, 1), (1, 5)], 0, 15), ([(0, 1), (1, 6)], 0, 16), ([(0, 1), (1, 6)], 1, 6),
+     ([(0, 2), (1, 6)], 0, 27), ([(0, 2), (1, 6)], 0, 27)] := by with_unfolding_all decide
+
+/-- The theorem applied to the run: e.g. 16 is the from-scratch output of task 0 on `[0↦1, 1↦6]`. -/
+example : Eval totalSem c01Body [(0, 1), (1, 6)] 0 16 :=
+  C01_sources totalSem_stampTotal c01Body_writeFree c01Body_respects c01Body_oneChecker 60
+    c01History _ _ _ (by with_unfolding_all decide)
+
+/-- ... and it agrees with the model's clean build, which returns the same value. -/
+example : (cleanBuild totalSem c01Body 60 [(0, 1), (1, 6)] [0]).2 matches .ok [16] := by
+  with_unfolding_all decide
+
+/-! ### why `SInv` and not just `SessWF ∧ Faithful` for the inner functions
+
+The inner functions are not meant to be called on arbitrary states: if the *executing* task had an
+output (never the case in a run: `SInv.curFree`), an aborted `require` would leave a `reserved`
+dependency on a task with output.  Counterexample to "`SessWF ∧ Faithful` in ⇒ `Faithful` out" for
+`tdRequire`: -/
+
+/-- A `Pie` on which task 2 (node 0) was built. -/
+def c01Built : PieSt := (requireAll totalSem c01Body 20 ({} : PieSt).newSession [2]).1.toPie
+
+/-- A well-formed session state on it whose "executing" task (node 0) has an output. -/
+def c01Bad : Sess := { c01Built.newSession with cur := some 0 }
+
+example : Faithful totalSem c01Body c01Bad.store :=
+  (C01_faithful_session totalSem_stampTotal c01Body_writeFree c01Body_respects c01Body_oneChecker
+    20 {} Store.WF.empty Faithful.empty [2]).2
+
+example : SessWF c01Bad :=
+  ⟨(C01_faithful_session totalSem_stampTotal c01Body_writeFree c01Body_respects c01Body_oneChecker
+      20 {} Store.WF.empty Faithful.empty [2]).1,
+    fun n hn => by
+      have : n = 0 := by simpa [c01Bad] using hn.symm
+      subst this
+      exact ⟨2, by with_unfolding_all decide⟩,
+    fun n hn => (nomatch hn)⟩
+
+/-- After an (out-of-fuel) `require` from that state, node 0 has an output and a `reserved`
+dependency: the store is not faithful. -/
+example : ¬ Faithful totalSem c01Body (tdRequire totalSem c01Body 1 c01Bad 1 0).1.store := by
+  intro h
+  have h1 : (tdRequire totalSem c01Body 1 c01Bad 1 0).1.store.taskOf 0 = some 2 := by
+    with_unfolding_all decide
+  have h2 : (tdRequire totalSem c01Body 1 c01Bad 1 0).1.store.taskOutput 0 = some 7 := by
+    with_unfolding_all decide
+  have h3 : Dep.reserved ∈ (tdRequire totalSem c01Body 1 c01Bad 1 0).1.store.depsFrom 0 := by
+    with_unfolding_all decide
+  exact (h 0 2 7 h1 h2).2 h3
+
 end PieModel
